@@ -359,7 +359,7 @@ func litOf(a atrun.Arg) string {
 type stmtOpt struct {
 	where    whereOpt
 	pkChange bool
-	insMode  string // "" | null-pk | zero-pk | auto-batch | dup
+	insMode  string // "" | mixed-pk (explicit and NULL/0 key values in one statement: refused) | dup
 	upMode   string // "" | pk-unique (upsert lists a fresh key, collides on the unique index and changes a column of it)
 }
 
@@ -449,15 +449,17 @@ func genDelete(r *hutil.Rng, t *table, o stmtOpt) (string, StmtMeta) {
 
 func genInsert(r *hutil.Rng, t *table, o stmtOpt) (string, StmtMeta) {
 	m := StmtMeta{Kind: "insert", Expect: "ok"}
-	omit := t.auto && (o.insMode == "auto-batch" || (o.insMode == "" && r.Chance(1, 3)))
+	omit := t.auto && o.insMode == "" && r.Chance(1, 3)
+	// the key column is listed but every row says NULL or 0: the database generates the keys
+	genAll := t.auto && !omit && o.insMode == "" && r.Chance(1, 4)
 	var cols []int
 	for c := range t.cols {
 		if t.isPK(c) {
 			if !omit {
 				cols = append(cols, c)
 			}
-		} else if r.Chance(3, 4) {
-			cols = append(cols, c)
+		} else if r.Chance(3, 4) || t.cols[c].Name == "docname" {
+			cols = append(cols, c) // docname: NOT NULL without a default
 		}
 	}
 	for i := range cols {
@@ -469,9 +471,7 @@ func genInsert(r *hutil.Rng, t *table, o stmtOpt) (string, StmtMeta) {
 	}
 	m.Cols = cols
 	nrows := 1
-	if o.insMode == "auto-batch" {
-		nrows = 2 + r.Intn(2)
-	} else if !omit && r.Chance(2, 5) {
+	if o.insMode == "mixed-pk" || r.Chance(2, 5) {
 		nrows = 2 + r.Intn(2)
 	}
 	m.NRows = nrows
@@ -499,12 +499,11 @@ func genInsert(r *hutil.Rng, t *table, o stmtOpt) (string, StmtMeta) {
 				} else {
 					v = atrun.S("n" + strconv.FormatInt(g0.freshInt(), 10))
 				}
+				if genAll || (o.insMode == "mixed-pk" && row == 0) {
+					v = []atrun.Arg{atrun.NullArg(), atrun.I(0)}[r.Intn(2)]
+				}
 				if row == 0 {
 					switch o.insMode {
-					case "null-pk":
-						v = atrun.NullArg()
-					case "zero-pk":
-						v = atrun.I(0)
 					case "dup":
 						if col.Kind == "int" {
 							v = atrun.I(1)
@@ -544,7 +543,7 @@ func genInsert(r *hutil.Rng, t *table, o stmtOpt) (string, StmtMeta) {
 			m.Listed = append(m.Listed, key)
 		}
 	}
-	if o.insMode == "dup" {
+	if o.insMode == "dup" || o.insMode == "mixed-pk" {
 		m.Expect = "reject"
 	}
 	m.Args = b.args
@@ -560,9 +559,6 @@ func buildScenario(r *hutil.Rng, i int, stream string, prop string) (atrun.Scena
 	pred := ""
 	if strings.HasPrefix(stream, "finding:") {
 		pred = strings.TrimPrefix(stream, "finding:")
-		if pred == "insert.pk-null-or-zero" || pred == "insert.auto-batch" {
-			variant = 0
-		}
 		if pred == "upsert.pk-listed.unique-changed" {
 			variant = 5
 		}
@@ -601,11 +597,15 @@ func buildScenario(r *hutil.Rng, i int, stream string, prop string) (atrun.Scena
 		o := stmtOpt{where: whereOpt{depth: 1 + r.Intn(3), keyBias: true}}
 		special := s == nst-1 // the stream's special statement comes last
 		if stream == "malformed" && special {
-			switch r.Intn(3) {
+			switch r.Intn(4) {
 			case 0:
 				o.pkChange = true
 			case 1:
 				o.insMode = "dup"
+			case 2:
+				if t.auto && t.name != "t_doc" {
+					o.insMode = "mixed-pk"
+				}
 			}
 		}
 		if pred != "" && special {
@@ -614,10 +614,6 @@ func buildScenario(r *hutil.Rng, i int, stream string, prop string) (atrun.Scena
 				o.where.extra = "func"
 			case "where.string-literal":
 				o.where.extra = "strlit"
-			case "insert.pk-null-or-zero":
-				o.insMode = []string{"null-pk", "zero-pk"}[r.Intn(2)]
-			case "insert.auto-batch":
-				o.insMode = "auto-batch"
 			case "upsert.pk-listed.unique-changed":
 				o.upMode = "pk-unique"
 			}
@@ -661,7 +657,7 @@ func buildScenario(r *hutil.Rng, i int, stream string, prop string) (atrun.Scena
 		default:
 			sql, sm = genInsert(r, &t, o)
 		}
-		if o.insMode == "null-pk" || o.insMode == "zero-pk" || o.insMode == "auto-batch" || pred == "lockkey.separator" {
+		if pred == "lockkey.separator" {
 			sm.Pred = pred
 		}
 		if stream == "malformed" && special && !o.pkChange && o.insMode == "" && sm.Kind != "upsert" {
